@@ -323,6 +323,15 @@ UNITS = [
       assumes=['plain symbolic execution of the real updateParameters; by-name / by-index accessors = ghost directory (VALID_C3D); the '
                'Parameter::set overloads and updateHeader are recording stubs (their own units); pre-state satisfies C05 for the '
                'ANALOG lists and channels are never removed']),
+    U('model_stream_write', 'contracts/model_self.c', 'h_model_stream_write', ['vf_stream_write/contract_vf_stream_write'],
+      ['C14', 'C03', 'C13', 'C18'], loops=True, model_loops=True, unwind=4, timeout=900, level='PB', object_bits=12,
+      bound='device of at most 8192 bytes, at most 4096 bytes per write'),
+    U('model_stream_read', 'contracts/model_self.c', 'h_model_stream_read', ['vf_stream_read/contract_vf_stream_read'],
+      ['C02', 'C16', 'C13', 'C18'], loops=True, model_loops=True, unwind=4, timeout=900, level='PB', object_bits=12,
+      bound='file image of at most 8192 bytes, at most 4096 bytes per read'),
+    U('model_string_ctor_copy', 'contracts/model_self.c', 'h_model_string_ctor_copy', ['vf_string_ctor_copy/contract_vf_string_ctor_copy'],
+      ['C08', 'C13', 'C18'], loops=True, model_loops=True, unwind=4, timeout=900, level='PB', object_bits=12,
+      bound='strings of at most 4096 characters'),
     U('Parameters_write', WR, 'h_Parameters_write', ['Parameters__write/contract_Parameters__write'],
       ['C01', 'C03', 'C13', 'C14', 'C10'], replace=['Group__write/contract_abs_Group__write'], unwind=5, loops=True, timeout=900,
       pre_unwind={'vf_stream_write.0': 5, 'Parameters__write.0': 3},
